@@ -1,7 +1,8 @@
 (** C13 — VPK archives return exactly what was last written, across reopen.
     Only statements here; proofs are in Fmt/VpkDirProofs.v, Fmt/VpkNameProofs.v and SM/VpkProofs.v. *)
 From Coq Require Import List NArith Bool Permutation.
-From SV Require Import Fmt.VpkDir Fmt.VpkDirProofs Fmt.VpkName Fmt.VpkNameProofs SM.Vpk SM.VpkProofs.
+From SV Require Import Fmt.VpkDir Fmt.VpkDirProofs Fmt.VpkName Fmt.VpkNameSplit Fmt.VpkNameProofs SM.Vpk SM.VpkProofs.
+From SV Require Import Fmt.VpkArchName Fmt.VpkArchNameProofs.
 Import ListNotations.
 Open Scope N_scope.
 
@@ -73,3 +74,56 @@ Proof. exact name_forms_trailing_dot_refuted. Qed.
     reopened archive reads back every file (computed with the real CRC-32). *)
 Theorem c13_example_history_runs : example_history_ok = true.
 Proof. exact example_history_ok_true. Qed.
+
+(** The same over the split statement of _get_file_parts as read from the source (Gen/VpkPlace_gen.v g_ext_split):
+    whenever it cuts at the last '.', the three forms agree ... *)
+Theorem c13_name_forms_agree_k : forall normpath k, split_kind_ok k = true -> forall s,
+  let '(h, t) := split_path s in
+  let '(n, e) := split_ext t [] in
+  file_parts_k normpath k (NPair h t) = file_parts_k normpath k (NStr s)
+  /\ ((e = [] -> rsplit1 46 n = None) -> file_parts_k normpath k (NTriple h n e) = file_parts_k normpath k (NStr s)).
+Proof. exact name_forms_agree_k. Qed.
+
+(** ... and cutting at the first '.' (str.partition) makes 'a/b.c.d' and ('a', 'b.c', 'd') different files. *)
+Theorem c13_name_forms_first_dot_refuted :
+  let s := [97; 47; 98; 46; 99; 46; 100] in
+  split_kind_ok (SplitFirst 46) = false
+  /\ file_parts_k posix_normpath (SplitFirst 46) (NStr s) = ([99; 46; 100], [97], [98])
+  /\ file_parts_k posix_normpath (SplitFirst 46) (NTriple [97] [98; 46; 99] [100]) = ([100], [97], [98; 46; 99]).
+Proof. exact name_forms_first_dot_refuted. Qed.
+
+(** ---- archive file names (Fmt/VpkArchName.v; the instance is Gen/VpkArchName_gen.v g_ncfg) ---- *)
+
+(** The filename setter: [P ++ '_dir.vpk'] has directory prefix [P], and no other file name has a prefix. *)
+Theorem c13_dir_prefix_exact : forall c, setter_ok c = true ->
+  (forall P, dir_prefix_of c (P ++ n_suffix c) = Some P)
+  /\ (forall f p, dir_prefix_of c f = Some p -> f = p ++ n_suffix c).
+Proof. intros c H. split; [exact (dir_prefix_of_dir c H)|exact (dir_prefix_of_inv c H)]. Qed.
+
+(** For every file name of a directory VPK and every index, FileInfo.write appends to exactly the file that FileInfo.read
+    and FileInfo.verify open, namely get_arch_filename(prefix, index); and get_arch_filename(prefix) is the directory file. *)
+Theorem c13_arch_names_coincide : forall c, ncfg_ok c = true -> forall f p i,
+  dir_prefix_of c f = Some p ->
+  site_name c f (n_writer c) i = Some (arch_filename c p (Some i))
+  /\ Forall (fun r => site_name c f r i = Some (arch_filename c p (Some i))) (n_readers c)
+  /\ arch_filename c p None = f.
+Proof. exact arch_names_coincide. Qed.
+
+(** Distinct indexes are distinct files, and none of them is the directory file (what SM/Vpk.v assumes by keeping the
+    archives in a map from index to contents next to the directory file). *)
+Theorem c13_arch_filename_inj : forall c, numbered_ok c = true -> forall p i j,
+  arch_filename c p (Some i) = arch_filename c p (Some j) -> i = j.
+Proof. exact arch_filename_inj. Qed.
+Theorem c13_arch_filename_not_dir : forall c, numbered_ok c = true -> forall p i,
+  arch_filename c p (Some i) <> arch_filename c p None.
+Proof. exact arch_filename_not_dir. Qed.
+
+(** Deriving the reader's prefix by character stripping (rstrip('_dir')) is refuted: 'world_dir.vpk' writes 'world_000.vpk'
+    and reads 'worl_000.vpk'; the condition [ncfg_ok] rejects that configuration. *)
+Theorem c13_arch_names_rstrip_refuted :
+  let c := ex_ncfg reader_rstrip in
+  let f := [119; 111; 114; 108; 100] ++ s_dir_vpk in
+  ncfg_ok c = false
+  /\ site_name c f (n_writer c) 0 = Some ([119; 111; 114; 108; 100; 95; 48; 48; 48] ++ s_vpk)
+  /\ site_name c f reader_rstrip 0 = Some ([119; 111; 114; 108; 95; 48; 48; 48] ++ s_vpk).
+Proof. exact arch_names_rstrip_refuted. Qed.
